@@ -266,6 +266,8 @@ def gen_window(rng, horizon, always=0.7):
 
 def gen_prio(rng):
     r = rng.random()
+    if r < 0.03:
+        return rng.choice([True, False])       # bool is an int: True sorts like 1, False like 0
     if r < 0.8:
         return rng.choice([-2, -1, -1, 0, 0, 0, 1, 1, 2, 3])
     if r < 0.9:
